@@ -508,5 +508,21 @@ func C19(r *eng.Run) {
 	})
 	r.Traces.Add(r.Evals())
 	r.Phase("Canonical", t0, nil)
+
+	// R: Canonical of values reached by operation sequences, and of every cohort member of a stride of them
+	reachedPhase(r, "R values reached by operation sequences", reachedAll(r), func(w *eng.W, b ref.Bits, v ref.Val) {
+		checkCanonical(w, b)
+		if b[15]%8 == 0 {
+			cs, qs := Cohort(v.C, v.Q)
+			want := B(D(b).Canonical())
+			for i := range cs {
+				mb := MkBits(v.Neg, cs[i], qs[i])
+				w.Eval()
+				if g := B(D(mb).Canonical()); g != want {
+					w.R.Fail(eng.Case{Op: "Canonical", Args: []string{mb.Hex()}, Got: g.Hex(), Want: want.Hex() + " (Canonical of the cohort member " + b.Hex() + " of the same value)"})
+				}
+			}
+		}
+	})
 	r.Require("unary/cohort-size-35", "binary/full-product", "binary/one-side-at-a-time", "canonical/finite", "canonical/zero", "canonical/special")
 }
